@@ -12,7 +12,11 @@ RULE = ('real: all six entry points (apply, map, starmap, imap, imap_unordered, 
         'size 1-4, every order of acceptance and completion of chunks by different '
         'workers, results arriving before set_length (interleaved feeder). '
         'Non-trivial: a multi-chunk job with out-of-order completion, or >=1 '
-        'raising position, or length % chunksize != 0.')
+        'raising position, or length % chunksize != 0. '
+        'simrecycle: the same jobs on pools with a per-child task quota, slow '
+        'parts, supervision steps and clock advances past the lost-worker timeout '
+        '(no deaths); non-trivial: a recycle exit and a multi-part job completed '
+        'out of order.')
 ASSUMPTIONS = [
     'chunked imap (chunksize>1) is observed at the iterator of chunks; the '
     'generator expression the API wraps around it ends at the first error by '
@@ -33,6 +37,27 @@ def sim_cases():
     return g.history(cfg, ops, max_ops=60, min_ops=10)
 
 
+def recycle_cases():
+    """the same jobs on a pool that recycles its workers (per-child task quota)
+    while parts of a map / imap are still running: slow parts, supervision
+    steps and clock advances past the lost-worker timeout, no deaths - every
+    result must still be the sequential one"""
+    cfg = g.config(threads=True, putlocks=False, maxtasks=True, lost=True)
+    ops = g.worker_ops + [
+        g.op_map(), g.op_imap(chunked=True), g.op_imap(chunked=True), g.op_imap(),
+        g.work, g.work, g.run, g.feed, g.tick, g.tick, g.tick, g.adv, g.adv,
+        g.slow, g.slow, g.wexit,
+        g.straggle.map(lambda o: o[:3] + [False]), g.parkrecycle, g.parkrecycle,
+    ]
+    return g.history(cfg, ops, max_ops=60, min_ops=12)
+
+
+def _nontrivial_recycle(labels, sim):
+    return any(e[1] == 155 for e in sim.exits) and any(
+        mj.kind != 'apply' and getattr(mj, 'out_of_order', False)
+        for mj in sim.jobs)
+
+
 def _nontrivial(labels, sim):
     for mj in sim.jobs:
         if mj.kind == 'apply':
@@ -48,11 +73,15 @@ def _nontrivial(labels, sim):
 
 
 execute_sim = make_execute({'c01', 'c02'}, _nontrivial, prop='C02')
-PARTS = {'sim': execute_sim, 'real': rp.execute_c02}
-EXPLORE = {'sim': (sim_cases(), execute_sim), 'real': (rp.c02_cases(), rp.execute_c02)}
+execute_recycle = make_execute({'c01', 'c02'}, _nontrivial_recycle, prop='C02')
+PARTS = {'sim': execute_sim, 'real': rp.execute_c02, 'simrecycle': execute_recycle}
+EXPLORE = {'sim': (sim_cases(), execute_sim), 'real': (rp.c02_cases(), rp.execute_c02),
+           'simrecycle': (recycle_cases(), execute_recycle)}
 
 
 def run(ctx):
     ctx.explore('sim', sim_cases(), execute_sim, n=ctx.pick(250, 25000))
+    ctx.explore('simrecycle', recycle_cases(), execute_recycle,
+                n=ctx.pick(150, 15000))
     ctx.explore('real', rp.c02_cases(), rp.execute_c02, n=ctx.pick(6, 150),
                 shrink_budget=6, reexecute_confirm=2)
